@@ -2,6 +2,8 @@ import LenaModel.DriverUtil
 import LenaModel.Model.Val
 import LenaModel.Model.C07
 import LenaModel.Model.C07Tok
+import LenaModel.Model.C07Ext
+import LenaModel.Model.C07Mut
 /-! Model driver for C07.  Values: a leaf is an integer (the class of the Python leaf under `==`),
 a dictionary is the array of its slots over the case's sorted key alphabet, `null` = key absent.
 Every reply `R` below is sent as `{"z": "<R compressed>"}` (see `handleZ`), errors as `{"err": …}`.
@@ -19,7 +21,16 @@ Requests (`n` = size of the alphabet, `falsy` = leaf classes that are false in b
       (u = untouchedL o p, gd = getPath d p, gu = getPath (updL d o) p, go = getPath o p)
   {"op":"tok","n":n,"a":T,"b":D,"c":c,"levels":[..],"falsy":[..]} -> {"r":[{"inter":T,"diff":T}, … per level]}
       token model: T = {"t":id,"s":[T|null,…]} (dictionary object) | {"l":class,"t":[ids]} (leaf and the mutable
-      objects it consists of); `c` = first unused identity; identities >= c in the reply (new objects) are written -1 -/
+      objects it consists of); `c` = first unused identity; identities >= c in the reply (new objects) are written -1
+  {"op":"ustr","n":n,"d":V,"other":{"v":V}|{"s":{"empty":b,"keys":[k..],"last":class}},"value":{"v":V}|null}
+      -> {"r":D} | {"e":"LenaTypeError"|"LenaValueError"}          (update_recursively, all argument forms)
+  {"op":"kw","n":n,"level":l,"ds":[V..],"unknown":b} -> {"r":D} | {"e":"LenaTypeError"}
+  {"op":"mn","k":k,"v":V} -> {"r":D} | {"e":…}                     (get_most_nested_subdict_with, nested_dicts = [])
+  {"op":"zip","n":n,"zk":k,"values":[D..],"falsy":[..]} -> {"common":D,"zip":[D..]|null,"recs":[D..]} | {"e":"Other:TypeError"}
+  {"op":"group","n":n,"o":k,"ch":k,"tt":c,"ff":c,"ctxs":[D..],"falsy":[..]} -> {"ctx":D,"inter":D,"recs":[D..]}
+  {"op":"uwg","n":n,"o":k,"ch":k,"tt":c,"ff":c,"ctx":D,"new":[D..],"old":D,"falsy":[..]} -> {"ctx":D}
+  {"op":"mutupd","d":T,"other":T,"c":c} -> {"d":T,"log":[ids]} | {"e":"LenaTypeError"}   (write log of update_recursively)
+  {"op":"mutnest","k":k,"d":T,"other":T,"c":c} -> {"d":T,"log":[ids]} | {"e":"Other:TypeError"} -/
 open Lean Lena Lena.Drv Lena.Val Lena.C07
 
 partial def toVal (j : Json) : Option (Val Int) :=
@@ -79,6 +90,29 @@ def tokAt (truthy : Int → Bool) (n c : Nat) (a : TVal Int) (b : Slots Int) (lv
   Json.mkObj [
     ("inter", ofTVal c (interT n lv c d0 [b]).1),
     ("diff", ofTVal c (diffTV truthy lv a (.dict b) c).1)]
+
+def ofOutX : OutX (Slots Int) → Json
+  | .ok l => Json.mkObj [("r", ofDict l)]
+  | .lenaTypeError => Json.mkObj [("e", "LenaTypeError")]
+  | .lenaValueError => Json.mkObj [("e", "LenaValueError")]
+  | .typeError => Json.mkObj [("e", "Other:TypeError")]
+
+def toOptVal (j : Json) : Option (Option (Val Int)) :=
+  if j.isNull then some none else (toVal (getD j "v")).map some
+
+def toOther (j : Json) : Option (Other Int) :=
+  match j.getObjVal? "s" with
+  | .ok s => do
+    let e ← bool? (getD s "empty")
+    let ks ← natList? (getD s "keys")
+    let l ← int? (getD s "last")
+    some (.str e ks l)
+  | .error _ => (toVal (getD j "v")).map Other.val
+
+def dictList? (j : Json) : Option (List (Slots Int)) :=
+  (arr? j).bind (fun a => a.toList.mapM toDict)
+
+def normTok (c0 t : Nat) : Json := if t ≥ c0 then ofInt (-1) else ofNat t
 
 def pathAt (d o : Slots Int) (p : List Nat) : Json :=
   Json.mkObj [
@@ -161,6 +195,64 @@ def handle (j : Json) : Json :=
         Json.mkObj [("r", Json.arr (lvs.map (tokAt (truthyOf j) n c a b)).toArray)]
       else err "tok: not well-formed"
     | _, _, _, _, _ => err "bad tok args"
+  | some "ustr" =>
+    match nat? (getD j "n"), toVal (getD j "d"), toOther (getD j "other"), toOptVal (getD j "value") with
+    | some n, some d, some o, some v => ofOutX (updateRecursivelyX n d o v)
+    | _, _, _, _ => err "bad ustr args"
+  | some "kw" =>
+    match nat? (getD j "n"), int? (getD j "level"), (arr? (getD j "ds")).bind (fun a => a.toList.mapM toVal),
+        bool? (getD j "unknown") with
+    | some n, some lv, some ds, some u => ofOut (intersectionKw n u lv ds)
+    | _, _, _, _ => err "bad kw args"
+  | some "mn" =>
+    match nat? (getD j "k"), toVal (getD j "v") with
+    | some k, some v => ofOutX (mnV k [] v)
+    | _, _ => err "bad mn args"
+  | some "zip" =>
+    match nat? (getD j "n"), nat? (getD j "zk"), dictList? (getD j "values") with
+    | some n, some zk, some vs =>
+      if vs.all (fun v => wfB n (.dict v)) then
+        match zipCreateContext (truthyOf j) n zk vs with
+        | .ok z =>
+          let diffs := z.zip.getD (vs.map (fun _ => emptyLike z.common))
+          Json.mkObj [("common", ofDict z.common),
+            ("zip", match z.zip with | some ds => Json.arr (ds.map ofDict).toArray | none => Json.null),
+            ("recs", Json.arr (diffs.map (fun d => ofDict (updL z.common d))).toArray)]
+        | .typeError => Json.mkObj [("e", "Other:TypeError")]
+        | .lenaTypeError => Json.mkObj [("e", "LenaTypeError")]
+        | .lenaValueError => Json.mkObj [("e", "LenaValueError")]
+      else err "zip: not well-formed"
+    | _, _, _ => err "bad zip args"
+  | some "group" =>
+    match nat? (getD j "n"), nat? (getD j "o"), nat? (getD j "ch"), int? (getD j "tt"), int? (getD j "ff"),
+        dictList? (getD j "ctxs") with
+    | some n, some o, some ch, some tt, some ff, some cs =>
+      if cs.all (fun v => wfB n (.dict v)) then
+        let i := splitGetContext n cs
+        Json.mkObj [("ctx", ofDict (groupPlotsContext (truthyOf j) n o ch tt ff cs)), ("inter", ofDict i),
+          ("recs", Json.arr (cs.map (fun c => ofDict (updL i (difference (truthyOf j) (-1) c i)))).toArray)]
+      else err "group: not well-formed"
+    | _, _, _, _, _, _ => err "bad group args"
+  | some "uwg" =>
+    match nat? (getD j "n"), nat? (getD j "o"), nat? (getD j "ch"), int? (getD j "tt"), int? (getD j "ff"),
+        toDict (getD j "ctx"), dictList? (getD j "new"), toDict (getD j "old") with
+    | some n, some o, some ch, some tt, some ff, some ctx, some nw, some old =>
+      Json.mkObj [("ctx", ofDict (updateWithGroup (truthyOf j) n o ch tt ff ctx nw old))]
+    | _, _, _, _, _, _, _, _ => err "bad uwg args"
+  | some "mutupd" =>
+    match toTVal (getD j "d"), toTVal (getD j "other"), nat? (getD j "c") with
+    | some d, some o, some c =>
+      match updT d o c with
+      | some st => Json.mkObj [("d", ofTVal c st.val), ("log", Json.arr (st.log.map (normTok c)).toArray)]
+      | none => Json.mkObj [("e", "LenaTypeError")]
+    | _, _, _ => err "bad mutupd args"
+  | some "mutnest" =>
+    match nat? (getD j "k"), toTVal (getD j "d"), toTVal (getD j "other"), nat? (getD j "c") with
+    | some k, some (.dict td x), some (.dict to y), some c =>
+      match updateNestedT k td x to y with
+      | some (d', log) => Json.mkObj [("d", ofTVal c d'), ("log", Json.arr (log.map (normTok c)).toArray)]
+      | none => Json.mkObj [("e", "Other:TypeError")]
+    | _, _, _, _ => err "bad mutnest args"
   | some "paths" =>
     match toDict (getD j "d"), toDict (getD j "o"), (arr? (getD j "paths")).bind (fun a => a.toList.mapM natList?) with
     | some d, some o, some ps => Json.mkObj [("r", Json.arr (ps.map (pathAt d o)).toArray)]
